@@ -63,6 +63,7 @@ def run(chk):
     r2_merge(chk, repo)
     r3_split(chk, repo)
     r4_replace(chk, repo)
+    r5_sum_waveform(chk, repo)
 
 
 def _top(body, pred):
@@ -360,8 +361,84 @@ def r4_replace(chk, repo):
             oks = False
     chk.check(oks, R, rm, sz[0] if sz else None, "the result is not sized len(orig) - skipped + len(merge)", site_text="replace_merged: result size")
 
+# ------------------------------------------------------------------------------------ R5
+def r5_sum_waveform(chk, repo):
+    chk.describe("C19.R5", "sum_waveform: scratch buffers and areas are cleared at the start of every peak, the left hit cursor is only moved by the search for the first overlapping hit, and what is added to the peak's area (total and per channel) is the sum of exactly the samples added to its waveform; _merge_peaks clears its scratch buffers before every merged peak")
+    R = "C19.R5"
+    f = repo.func("sum_waveform", BUILD)
+    cfg = cfg_of(f)
+    outer = [n for n in f.node.body if isinstance(n, ast.For) and isinstance(n.target, ast.Name)]
+    chk.need(len(outer) == 1, "C19.R5: peak loop of sum_waveform not found")
+    ol = outer[0]
+    pdef = [st for st in ol.body if isinstance(st, ast.Assign) and isinstance(st.targets[0], ast.Name) and isinstance(st.value, ast.Subscript) and norm(st.value.slice) == norm(ol.target)]
+    chk.need(bool(pdef), "C19.R5: current peak `p = peaks[peak_i]` not found")
+    P = pdef[0].targets[0].id
+    scans = [n for n in ol.body if isinstance(n, ast.For) and isinstance(n.iter, ast.Call) and call_name(n.iter) == "range" and len(n.iter.args) == 2]
+    chk.check(len(scans) == 2, R, f, ol, f"expected the search for the first overlapping hit and the scan over the overlapping hits, found {len(scans)} range loops", site_text="sum_waveform: search loop + scan loop")
+    if len(scans) != 2:
+        return
+    search, scan = scans
+    LEFT = norm(search.target)
+    okc = norm(search.iter.args[0]) == LEFT and norm(scan.iter.args[0]) == LEFT and norm(scan.target) != LEFT
+    other = [st for st in walk_body(f.node) if isinstance(st, (ast.Assign, ast.AugAssign)) and any(norm(t) == LEFT for t in (st.targets if isinstance(st, ast.Assign) else [st.target]))]
+    init_ok = len(other) == 1 and norm(other[0].value) == "0" and enclosing(other[0], (ast.For, ast.While)) is None
+    chk.check(okc and init_ok, R, f, other[1] if len(other) > 1 else search, f"the left hit cursor `{LEFT}` is moved by something other than the search for the first overlapping hit (a hit that straddles two adjacent peaks would be skipped for the second one)", site_text="sum_waveform: left cursor moved only by the search loop", site={"function": f.qualname, "rule": "left cursor"})
+    brk = [st for st in search.body if isinstance(st, ast.If) and len(st.body) == 1 and isinstance(st.body[0], ast.Break)]
+    okb = False
+    if len(brk) == 1 and isinstance(brk[0].test, ast.Compare) and len(brk[0].test.ops) == 1:
+        c = brk[0].test
+        a, b, op = c.left, c.comparators[0], c.ops[0]
+        if isinstance(op, (ast.Gt, ast.GtE)):
+            a, b = b, a
+        okb = isinstance(op, (ast.Lt, ast.Gt)) and norm(a) == f"{P}['time']" and "['time']" in norm(b) and "['length']" in norm(b)
+    chk.check(okb, R, f, brk[0] if brk else search, "the search does not stop at the first hit that ends after the peak start (strictly)", site_text="sum_waveform: break at first hit with peak start < hit end")
+    # clearing at the start of every peak, before the scan
+    si = ol.body.index(scan)
+    pre = ol.body[:si]
+    bufs = [st for st in walk_body(f.node) if isinstance(st, ast.AugAssign) and isinstance(st.target, ast.Subscript) and isinstance(st.target.slice, ast.Slice) and isinstance(st.op, ast.Add) and id(st) in {id(x) for x in ast.walk(scan)}]
+    main = [st for st in bufs if enclosing(st, (ast.If,)) is None or enclosing(enclosing(st, (ast.If,)), (ast.For,)) is not scan]
+    chk.check(len(main) >= 1, R, f, scan, "the scan does not add the hit's samples to the waveform buffer unconditionally", site_text="sum_waveform: buffer[p_start:p_end] += hit samples")
+    for st in main[:1]:
+        BUF, D = norm(st.target.value), norm(st.value)
+        cleared = [x for x in pre if isinstance(x, ast.Assign) and isinstance(x.targets[0], ast.Subscript) and norm(x.targets[0].value) == BUF and norm(x.value) == "0"]
+        chk.check(len(cleared) == 1, R, f, st, f"the waveform buffer `{BUF}` is not cleared at the start of every peak, before the hits are added", site_text="sum_waveform: buffer cleared per peak")
+        ar = [x for x in scan.body if isinstance(x, ast.AugAssign) and _field_store(x, P, "area") and isinstance(x.op, ast.Add)]
+        okA = False
+        if len(ar) == 1 and isinstance(ar[0].value, ast.Name):
+            ad = [x for x in scan.body if isinstance(x, ast.Assign) and norm(x.targets[0]) == ar[0].value.id]
+            okA = len(ad) == 1 and norm(ad[0].value) == f"{D}.sum()"
+            pc = [x for x in scan.body if isinstance(x, ast.AugAssign) and isinstance(x.target, ast.Subscript) and norm(x.value) == ar[0].value.id and not _field_store(x, P, "area")]
+            okA = okA and len(pc) == 1
+            if okA:
+                APC = norm(pc[0].target.value)
+                okA = any(isinstance(x, ast.AugAssign) and norm(x.target) == APC and isinstance(x.op, ast.Mult) and norm(x.value) == "0" for x in pre) and any(isinstance(x, ast.Assign) and _field_store(x, P, "area") and norm(x.value) == "0" for x in pre)
+                fin = [x for x in ol.body[si:] if isinstance(x, ast.Assign) and isinstance(x.targets[0], ast.Subscript) and norm(x.targets[0].value) == f"{P}['area_per_channel']" and norm(x.value) == APC]
+                okA = okA and len(fin) == 1
+        chk.check(okA, R, f, ar[0] if ar else scan, "the area added to the peak (total, per channel, cleared per peak, stored at the end) is not the sum of exactly the samples added to its waveform", site_text="sum_waveform: area += (samples added).sum(), per channel too", site={"function": f.qualname, "rule": "area is the integral of what was added"})
+        from ..rules import on_every_iteration as _oei
+    # _merge_peaks: scratch buffers cleared before the constituents are written
+    mf = repo.func("_merge_peaks", MERGE)
+    mo = [n for n in mf.node.body if isinstance(n, ast.For) and call_name(n.iter) == "enumerate"]
+    if mo:
+        inner = [n for n in mo[0].body if isinstance(n, ast.For) and isinstance(n.iter, ast.Name)]
+        if inner:
+            ii = mo[0].body.index(inner[0])
+            writes = {norm(st.targets[0].value) for st in walk_body(inner[0]) if isinstance(st, ast.Assign) and isinstance(st.targets[0], ast.Subscript) and isinstance(st.targets[0].slice, ast.Slice) and isinstance(st.targets[0].value, ast.Name)}
+            cleared = {norm(st.targets[0].value) for st in mo[0].body[:ii] if isinstance(st, ast.Assign) and isinstance(st.targets[0], ast.Subscript) and isinstance(st.targets[0].slice, ast.Slice) and norm(st.value) == "0"}
+            chk.check(bool(writes) and writes <= cleared, R, mf, inner[0], f"scratch buffers {sorted(writes - cleared)} are written for a merged peak without having been cleared for it first: samples of an earlier merged peak show up in the gaps between the constituents", site_text="_merge_peaks: buffers cleared before every merged peak", site={"function": mf.qualname, "rule": "buffers cleared before use"})
+
 
 WITNESSES = [
+    W("left cursor resumes at the right cursor", "C19.R5", BUILD,
+      "area_per_channel[ch] += area_pe\n            p[\"area\"] += area_pe\n", "area_per_channel[ch] += area_pe\n            p[\"area\"] += area_pe\n\n        left_h_i = right_h_i\n"),
+    W("area taken from the whole hit, waveform from the overlap", "C19.R5", BUILD,
+      "area_pe = hit_data.sum()", "area_pe = hit_waveform.sum() * adc_to_pe[ch]"),
+    W("waveform buffer not cleared per peak", "C19.R5", BUILD,
+      "swv_buffer[: min(2 * p_length, len(swv_buffer))] = 0\n", "pass\n"),
+    W("merge buffers cleared after use", "C19.R5", MERGE,
+      "buffer[:bl] = 0\n        buffer_top[:bl] = 0\n", "pass\n"),
+    W("per-channel areas reset only when a peak is saved", "C19.R1", BUILD,
+      "# This hit starts a new peak candidate\n            area_per_channel *= 0\n", "# This hit starts a new peak candidate\n"),
     W("hits counted only when they continue a peak", "C19.R1", BUILD,
       "in_peak = True\n            p[\"max_gap\"] = 0\n\n        # Add hit's properties to the current peak candidate\n\n        # NB! One pulse can result in two hits, if it occours at the\n        # boundary of a record. This is the default of strax.find_hits.\n        p[\"n_hits\"] += 1",
       "in_peak = True\n            p[\"max_gap\"] = 0\n            continue\n\n        p[\"n_hits\"] += 1"),
